@@ -6,5 +6,5 @@ Require Import ExtrOcamlBasic ExtrOcamlString.
 Extraction Language OCaml.
 Extraction "../ocaml/c10/model.ml" conn_init step run simulate labels_of outcome_of c_done c_status
   c_handlers c_queue justified sent_for streams_of parse_frame f_stream f_opcode f_flags f_body
-  be_dec td_measure broken_class skipped_labels resend_ok run_lenient sent_table
+  be_dec td_measure broken_class skipped_labels resend_ok run_lenient sent_table accept_obs echo_of rid_of_marker pool_accept pool_labels
   Z.of_N. (* Z.of_N only so that the shared conv.ml finds the type z *)
